@@ -94,6 +94,7 @@ pub mod c09;
 pub mod c07;
 pub mod c15;
 pub mod c12;
+pub mod c12_parts;
 pub mod c10;
 pub mod c10_ref;
 pub mod c06;
